@@ -62,10 +62,13 @@ type ExtVocab struct {
 // JSON renders the vocabulary in the form astool reads.
 func (v ExtVocab) JSON() []byte {
 	ctx := L{
-		M{"as": "https://www.w3.org/ns/activitystreams", "forge": "https://forgefed.peers.community/ns", "owl": "http://www.w3.org/2002/07/owl#", "rdf": "http://www.w3.org/1999/02/22-rdf-syntax-ns#",
+		M{"as": "https://www.w3.org/ns/activitystreams", "owl": "http://www.w3.org/2002/07/owl#", "rdf": "http://www.w3.org/1999/02/22-rdf-syntax-ns#",
 			"rdfs": "http://www.w3.org/2000/01/rdf-schema#", "rfc": "https://tools.ietf.org/html/", "schema": "http://schema.org/", "xsd": "http://www.w3.org/2001/XMLSchema#"},
 		M{"domain": "rdfs:domain", "isDefinedBy": "rdfs:isDefinedBy", "mainEntity": "schema:mainEntity", "members": "owl:members", "name": "schema:name",
 			"range": "rdfs:range", "subClassOf": "rdfs:subClassOf", "disjointWith": "owl:disjointWith", "subPropertyOf": "rdfs:subPropertyOf", "unionOf": "owl:unionOf", "url": "schema:URL"},
+	}
+	if len(v.Extra) > 0 {
+		ctx[0].(M)["forge"] = "https://forgefed.peers.community/ns" // only when ForgeFed is among the specs: astool resolves every prefix
 	}
 	members := L{}
 	for _, t := range v.Types {
